@@ -578,7 +578,7 @@ Proof.
     apply Rmax_right. rewrite <- DD. apply Rle_0_sqr. }
   rewrite EM. fold (arc_D a b r).
   pose proof (normalize_scale _ HL) as SC.
-  assert (EH : v2len (v2sub b a) = 2 * arc_h a b) by (unfold arc_h; cbv [T ROps]; field).
+  assert (EH : v2len (v2sub b a) = 2 * arc_h a b) by (unfold arc_h; set (q := v2len _); change (@eq R q (2 * (q / 2))); clearbody q; field).
   rewrite EH in SC. clear EH EM.
   set (u := v2normalize (v2sub b a)) in *. set (h := arc_h a b) in *. set (D := arc_D a b r) in *.
   set (s := @sign ROps r). clearbody u h D s.
